@@ -233,10 +233,6 @@ def frameAt (L : Layout) (idx : Nat) : Except Crash Frame :=
 def lookupU8 (L : Layout) (fn : Nat) : Except Crash Frame :=
   if L.period = 0 then .error (.lookup .divByZero) else frameAt L (u8 (fn % L.period))
 
-/-- `(int) (uint32_t) x` -/
-def toInt32 (x : Nat) : Int :=
-  if u32 x < 2147483648 then (u32 x : Int) else (u32 x : Int) - 4294967296
-
 /-- `elapsed = fn - lchan->tdma.last_proc;` (`uint32_t` difference converted to `int`), then
     `if (elapsed >= GSM_TDMA_HYPERFRAME / 2) elapsed -= GSM_TDMA_HYPERFRAME;`
     `else if (elapsed < -GSM_TDMA_HYPERFRAME / 2) elapsed += GSM_TDMA_HYPERFRAME;` -/
